@@ -141,6 +141,17 @@ def grammar_tables(work):
     lines.append("static const int G_PROD_TOK[N_GPROD] = {" + ", ".join(str(tid[p[0]]) if p[0] in tid else "-1" for p in prods) + "};")
     lines.append("static const int G_PROD_KIND[N_GPROD] = {" + ", ".join("K_" + p[2] for p in prods) + "};")
     lines.append(f"#define G_IMPLY_IS_NOT_OR {1 if im else 0}")
+    # precedence of the inline-if and assignment PRODUCTIONS (their %prec annotation, else the last terminal of the rule)
+    iif = re.search(r"Expression '\?' Expression ':' Expression\s*\{[^}]*\}(\s*%prec\s+(\S+))?", body)
+    if not iif:
+        raise X.ExtractionBroken("parser.y: inline-if production not found")
+    iif_tok = iif.group(2) if iif.group(2) else "':'"
+    asg = re.search(r"Expression AssignOp Expression\s*\{[^}]*\}(\s*%prec\s+(\S+?))?;", py.text)
+    if not asg:
+        raise X.ExtractionBroken("parser.y: Assignment production not found")
+    asg_tok = asg.group(2) if asg.group(2) else "T_ASSIGNMENT"
+    lines.append(f"#define G_INLINE_IF_RULE_LEVEL {level.get(iif_tok, (0, ''))[0]}")
+    lines.append(f"#define G_ASSIGN_RULE_LEVEL {level.get(asg_tok, (0, ''))[0]}")
     wb = want["binary"]
     lines.append(f"#define N_WANT {len(wb)}")
     lines.append("static const int W_TOK[N_WANT] = {" + ", ".join(str(tid[w["token"]]) for w in wb) + "};")
